@@ -758,6 +758,7 @@ def rules_c04(ctx, rep):
 def rules_c05(ctx, rep):
     cfgs = configs(ctx, forbid=True)
     base_checks(ctx, rep, cfgs)
+    rule_transitions(ctx, rep, cfgs, want=('G1',))      # one position per transition, the end-of-input edge included: offsets stay <= len + 1
     rule_automata(ctx, rep, cfgs)
     rule_records(ctx, rep, cfgs, want=('G7c',))
     rule_graph(ctx, rep, cfgs, want=('G3',))              # at most one virtual end-of-input position: offsets stay <= len + 1
